@@ -74,7 +74,7 @@ type sigAgg struct {
 }
 
 func drive(d *mon.Driver, replay string) int {
-	d.Rule = "a process run (one fresh -race worker process) is counted once per workload kind in which >=2 goroutines executed the same first-use path concurrently, key = workload kind x goroutine count N x GOMAXPROCS x process index; workload kinds: proxy (method calls with parameters/results of Go types never seen before in the process), structof (reflect.StructOf types with run-specific fields: field get/set), codec (every codec + one registered per goroutine), smallint (int/byte caches, os.args, type-error path), sweep (every pure module function and builtin), import (ONE LocalImporter and ONE FSImporter shared by all VMs), sharedcode (ONE *compiler.Code run by all VMs, typed globals), clone (Clone()+Call on clones of one VM with disjoint arguments, parent idle / running / starting), mutate (scripts edit every mutable object reachable from process-wide state with keys carrying their own id and must see exactly their own edits), hammer (every pure module function / builtin / method with a pattern-, format-, layout- or key-like argument called hundreds of times with arguments derived from the goroutine's own id: identical calls must agree and every line must equal the sequential run; rand.*, time.now, os.getpid etc. in tight loops for the race detector with range checks and no 63-bit random value drawn twice per process)"
+	d.Rule = "a process run (one fresh -race worker process) is counted once per workload kind in which >=2 goroutines executed the same first-use path concurrently, key = workload kind x goroutine count N x GOMAXPROCS x process index; workload kinds: proxy (method calls with parameters/results of Go types never seen before in the process), structof (reflect.StructOf types with run-specific fields: field get/set), codec (every codec + one registered per goroutine), smallint (int/byte caches, os.args, type-error path), sweep (every pure module function and builtin), import (ONE LocalImporter and ONE FSImporter shared by all VMs), sharedcode (ONE *compiler.Code run by all VMs, typed globals), clone (Clone()+Call on clones of one VM with disjoint arguments, parent idle / running / starting), mutate (scripts edit every mutable object reachable from process-wide state with keys carrying their own id and must see exactly their own edits), hammer (every pure module function / builtin / method with a pattern-, format-, layout- or key-like argument called hundreds of times with arguments derived from the goroutine's own id: identical calls must agree and every line must equal the sequential run; rand.*, time.now, os.getpid etc. in tight loops for the race detector with range checks and no 63-bit random value drawn twice per process), failfirst (operations that fail - caught with try - mixed with successful ones of the same builtin family in tight loops in all VMs at once: sorting, formatting/conversion, codecs/json, regexp, strings/bytes, math/containers; identical calls must agree and every line must equal the sequential run)"
 	d.Assume = []string{
 		"each goroutine has its own risor config, default globals and Go values; nothing is shared at script level, so every race report with a risor frame is on interpreter or package-level state",
 		"first use happens once per process: each case is a fresh process; goroutines are released from one barrier (mode rounds: one barrier per program, mode free: one barrier, every goroutine runs the programs in its own order)",
